@@ -195,7 +195,7 @@ var (
 func normErr(s string) string {
 	line := ""
 	for _, l := range strings.Split(s, "\n") {
-		if strings.TrimSpace(l) != "" {
+		if t := strings.TrimSpace(l); t != "" && !strings.HasPrefix(t, "exit status") {
 			line = strings.TrimSpace(l)
 			break
 		}
